@@ -12,6 +12,9 @@ package utils
 // famJO(): some JobsOrderByQueues reference, used only to NAME whole heap families in `modifies family(...)`
 // clauses of functions that create their JobsOrderByQueues themselves (no such object in the pre-state).
 //@ declare famJO() *JobsOrderByQueues
+// jo.ssn is written only by the struct literal of NewJobsOrderByQueues (requested by helper "exec2": the Execute loops
+// need jo.ssn to survive their `modifies *` steps; opt in with `usestable JobsOrderByQueues.ssn`)
+//@ stable JobsOrderByQueues.ssn
 
 // PushJob (verified; was trusted). The ghost flag pushed(job) stays in the frame: it is the hook the C06 units use
 // ("a job can only get into an order through PushJob"); the real-state counterpart proved here is [queued*].
@@ -224,6 +227,8 @@ package utils
 //@   modifies family(pq.queue.items[*]), family(qnOf(pq.queue.items[0]).needsReorder)
 //@   ensures [leaf] result != nil ==> result.isLeaf && result.queue != nil && result.children != nil && len(result.children.queue.items) > 0 && jobQueue(result.children)
 //@   ensures [leafUntouched] result != nil ==> samearray(result.children.queue.items, old(result.children.queue.items)) && (forall i int :: 0 <= i && i < len(result.children.queue.items) ==> result.children.queue.items[i] == old(result.children.queue.items[i]))
+//@   ensures [leafJobsQueueKnown] result != nil && jo.ssn != nil && jo.ssn.ClusterInfo != nil ==> (forall i int :: 0 <= i && i < len(result.children.queue.items) ==> jobOf(result.children.queue.items[i]).Queue in jo.ssn.ClusterInfo.Queues && jo.ssn.ClusterInfo.Queues[jobOf(result.children.queue.items[i]).Queue] != nil)
+//@   note [leafJobsQueueKnown]: part of the same data invariant - only PushJob adds jobs to a leaf's queue and it requires [queueKnown]; assumes that neither job.Queue nor the session's Queues map change while the job is queued
 //@   ensures [linkedNodesNonEmpty] old(len(pq.queue.items)) > 0 ==> result != nil
 //@ end
 
@@ -261,6 +266,8 @@ package utils
 //  [bestOfLeaf]          (C16) it was the FIRST element of that leaf's queue, and if that queue satisfied the heap
 //                        invariants under a strict-weak-order comparator, none of the leaf's jobs is ordered before it
 //                        by the leaf's comparator (= createLeafNode$1 = the session's JobOrderFn: priority, then FIFO)
+//  [poppedQueueKnown]    (requested by helper "exec2" for the re-push in allocate.Execute) the popped job's queue is in
+//                        the session's queue map - rests on the trusted traverseToLeaf [leafJobsQueueKnown]
 //  [victimRecorded]      a victims queue remembers the popped job under the leaf's queue
 //  [inv]                 the object invariant is kept
 //@ func (*JobsOrderByQueues).PopNextJob
@@ -272,6 +279,7 @@ package utils
 //@   ensures [nonEmptyYieldsJob] !old(orderEmpty(jo)) ==> result != nil
 //@   ensures [pushedNotPopped] result != nil ==> (exists n *queueNode :: old(n != nil && n.isLeaf && n.children != nil && holdsJob(n.children, result)))
 //@   ensures [bestOfLeaf] result != nil ==> (exists n *queueNode :: old(n != nil && n.isLeaf && n.children != nil && len(n.children.queue.items) > 0 && isJob(n.children.queue.items[0])) && result == old(jobOf(n.children.queue.items[0])) && (old(scheduler_util.pqOrdered(n.children)) ==> (forall j int :: 0 <= j && j < old(len(n.children.queue.items)) ==> !scheduler_util.lessV(old(n.children.queue.lessFn), old(n.children.queue.items[j]), old(n.children.queue.items[0])))))
+//@   ensures [poppedQueueKnown] result != nil && jo.ssn != nil && jo.ssn.ClusterInfo != nil ==> result.Queue in jo.ssn.ClusterInfo.Queues && jo.ssn.ClusterInfo.Queues[result.Queue] != nil
 //@   ensures [victimRecorded] result != nil && jo.options.VictimQueue ==> (exists k common_info.QueueID :: len(jo.poppedJobsByQueue[k]) == old(len(jo.poppedJobsByQueue[k])) + 1 && jo.poppedJobsByQueue[k][len(jo.poppedJobsByQueue[k]) - 1] == result)
 //@   ensures [inv] mapOK(jo) && parentsOK()
 //@ end
